@@ -6,6 +6,9 @@ import (
 	"encoding/json"
 	"flag"
 	"fmt"
+	"go/ast"
+	"go/parser"
+	"go/token"
 	"os"
 	"os/exec"
 	"path/filepath"
@@ -53,6 +56,17 @@ type UnitCfg struct {
 	Tiers         map[string]*TierCfg `json:"tiers"`
 	Replay        string              `json:"replay"`
 	MaxIte        int                 `json:"max_ite"`
+	// Rename lists functions of the real code that the harness replaces: in an
+	// overlay copy of the file the function is renamed to <name>__real, and the
+	// harness defines <name> itself (same for the engine and the native replay).
+	Rename []RenameCfg `json:"rename"`
+	Solver   string    `json:"solver"`   // z3 (default) | cvc5 | cvc5-int
+	Fallback string    `json:"fallback"` // solver for assertion queries the primary answers unknown
+}
+
+type RenameCfg struct {
+	File  string   `json:"file"`  // repo-relative (or absolute) path
+	Funcs []string `json:"funcs"` // "Func" or "Recv.Method"
 }
 
 type HarnessCfg struct {
@@ -207,6 +221,7 @@ func main() {
 	defer os.RemoveAll(r.scratch)
 
 	if *replayTape != "" {
+		*replayTape, _ = filepath.Abs(*replayTape)
 		code := r.replayOnly(*replayTape)
 		os.RemoveAll(r.scratch)
 		os.Exit(code)
@@ -242,7 +257,72 @@ func (r *runner) overlayFor(u *UnitCfg) (map[string][]byte, error) {
 		}
 		ov[dst] = b
 	}
+	for _, rc := range u.Rename {
+		path := rc.File
+		if !filepath.IsAbs(path) {
+			path = filepath.Join(r.repo, path)
+		}
+		src, ok := ov[path]
+		if !ok {
+			var err error
+			src, err = os.ReadFile(path)
+			if err != nil {
+				return nil, err
+			}
+		}
+		out, err := renameFuncs(path, src, rc.Funcs)
+		if err != nil {
+			return nil, err
+		}
+		ov[path] = out
+	}
 	return ov, nil
+}
+
+// renameFuncs renames the listed top-level functions/methods to <name>__real.
+func renameFuncs(path string, src []byte, funcs []string) ([]byte, error) {
+	fset := token.NewFileSet()
+	f, err := parser.ParseFile(fset, path, src, parser.SkipObjectResolution)
+	if err != nil {
+		return nil, err
+	}
+	type edit struct{ off int }
+	var edits []int
+	for _, want := range funcs {
+		found := false
+		for _, d := range f.Decls {
+			fd, ok := d.(*ast.FuncDecl)
+			if !ok {
+				continue
+			}
+			name := fd.Name.Name
+			if fd.Recv != nil && len(fd.Recv.List) == 1 {
+				t := fd.Recv.List[0].Type
+				if st, ok := t.(*ast.StarExpr); ok {
+					t = st.X
+				}
+				if ix, ok := t.(*ast.IndexExpr); ok {
+					t = ix.X
+				}
+				if id, ok := t.(*ast.Ident); ok {
+					name = id.Name + "." + name
+				}
+			}
+			if name == want {
+				edits = append(edits, fset.Position(fd.Name.End()).Offset)
+				found = true
+			}
+		}
+		if !found {
+			return nil, fmt.Errorf("rename: function %s not found in %s", want, path)
+		}
+	}
+	sort.Sort(sort.Reverse(sort.IntSlice(edits)))
+	out := append([]byte(nil), src...)
+	for _, off := range edits {
+		out = append(out[:off], append([]byte("__real"), out[off:]...)...)
+	}
+	return out, nil
 }
 
 func (r *runner) tierFor(u *UnitCfg, e *EntryCfg) TierCfg {
@@ -307,7 +387,7 @@ func (r *runner) run(out, onlyEntry string) int {
 				QueryTimeout: tc.QueryTimeoutS * 1000, MaxIte: 64, Params: tc.Params,
 				MapOrder: u.MapOrder, GoMode: u.GoMode, ChanUnbounded: u.ChanUnbounded,
 				SkipInit: append([]string{"google.golang.org/protobuf", "github.com/prometheus", "google.golang.org/grpc", "regexp", "github.com/nspcc-dev/neo-go/pkg/config", "net/http", "crypto/tls", "crypto/x509", "testing", "os", "syscall", "runtime", "internal", "net", "reflect", "encoding/json", "html", "text/template"}, u.SkipInit...),
-				Workers: workers(), SolverBin: "z3", KeepScripts: tc.CrossCheck,
+				Workers: workers(), SolverBin: orStr(u.Solver, "z3"), Fallback: u.Fallback, KeepScripts: tc.CrossCheck,
 				ExpectReach: e.Reach, Havoc: append([]string{"go.uber.org/zap"}, u.Havoc...),
 				TimeBudget: time.Duration(tc.TimeBudgetS) * time.Second,
 			}
@@ -323,6 +403,7 @@ func (r *runner) run(out, onlyEntry string) int {
 					"feasibility_sat": st.QFeasSat, "feasibility_unsat": st.QFeasUnsat, "feasibility_unknown": st.QFeasUnk,
 					"assertion_unsat": st.QAssertUnsat, "assertion_sat": st.QAssertSat, "assertion_unknown": st.QAssertUnk,
 					"solver_calls": st.SolverQueries, "solver_errors": st.SolverErrors,
+					"fallback_solver_queries": st.FallbackQueries, "fallback_solver_decided": st.FallbackDecided,
 				},
 				Discharged: st.LabelsDischarged, TrivialAssert: st.TrivialAsserts, Reached: st.Reached,
 				Bounds:      map[string]any{"unwind": tc.Unwind, "depth": tc.Depth, "steps_per_path": tc.Steps, "max_paths": tc.Paths, "query_timeout_s": tc.QueryTimeoutS, "params": tc.Params},
@@ -357,7 +438,7 @@ func (r *runner) run(out, onlyEntry string) int {
 				dis := 0
 				checked := 0
 				for i, sc := range st.Scripts {
-					for _, bin := range []string{"z3-new", "cvc5"} {
+					for _, bin := range crossSolvers(orStr(u.Solver, "z3")) {
 						if _, err := exec.LookPath(bin); err != nil {
 							continue
 						}
@@ -374,8 +455,16 @@ func (r *runner) run(out, onlyEntry string) int {
 				rep.Cross = map[string]any{"scripts": len(st.Scripts), "rechecks": checked, "disagreements": dis}
 			}
 			// native replay of violations
+			confirmedLabel := map[string]string{}
 			for _, v := range st.Violations {
+				key := v.Kind + "|" + v.Label
+				if c, ok := confirmedLabel[key]; ok && (strings.HasPrefix(c, "native") || strings.HasPrefix(c, "engine")) {
+					v.TapePath = r.writeTape(v, tc.Params)
+					v.Confirmed = "same obligation as a replayed counterexample (not replayed separately)"
+					continue
+				}
 				r.confirm(u, ld.Pkg.Pkg.Name(), v, tc.Params)
+				confirmedLabel[key] = v.Confirmed
 			}
 			rep.Violations = st.Violations
 			allViol = append(allViol, st.Violations...)
@@ -395,6 +484,11 @@ func (r *runner) run(out, onlyEntry string) int {
 			reports = append(reports, rep)
 			fmt.Printf("[gose] %s: paths=%d completed=%d infeasible=%d aborts=%v assert(unsat=%d sat=%d unk=%d trivial=%d) feas(sat=%d unsat=%d unk=%d) wall=%.1fs solver=%.1fs\n",
 				e.Name, st.Paths, st.Completed, st.Infeasible, st.Aborts, st.QAssertUnsat, st.QAssertSat, st.QAssertUnk, st.TrivialAsserts, st.QFeasSat, st.QFeasUnsat, st.QFeasUnk, st.Wall.Seconds(), st.SolverTime.Seconds())
+			if os.Getenv("GOSE_DEBUG") != "" {
+				for _, o := range st.Observes {
+					fmt.Printf("[gose]   observes: %v\n", o)
+				}
+			}
 			for m, n := range st.AbortMsgs {
 				fmt.Printf("[gose]   abort x%d: %s\n", n, m)
 			}
@@ -418,6 +512,8 @@ func (r *runner) run(out, onlyEntry string) int {
 			continue
 		}
 		switch {
+		case strings.HasPrefix(v.Confirmed, "same obligation"):
+			continue
 		case strings.HasPrefix(v.Confirmed, "native"), strings.HasPrefix(v.Confirmed, "engine"):
 			nviol++
 			fmt.Printf("VIOLATION property=%s replay=%s\n", r.prop, v.TapePath)
@@ -439,6 +535,20 @@ func (r *runner) run(out, onlyEntry string) int {
 	}
 	_ = nviol
 	return exit
+}
+
+func crossSolvers(primary string) []string {
+	if primary == "cvc5-int" {
+		return []string{"z3-new"}
+	}
+	return []string{"z3-new", "cvc5"}
+}
+
+func orStr(a, b string) string {
+	if a != "" {
+		return a
+	}
+	return b
 }
 
 func workers() int {
@@ -543,8 +653,12 @@ func (r *runner) nativeRun(u *UnitCfg, pkgName string, tape string) (string, err
 	rep := map[string]string{}
 	rep[filepath.Join(r.repo, "internal/vrt/vrt.go")] = filepath.Join(r.verif, "vrt", "vrt.go")
 	var entries []string
+	seenE := map[string]bool{}
 	for _, e := range u.Entries {
-		entries = append(entries, e.Name)
+		if !seenE[e.Name] {
+			seenE[e.Name] = true
+			entries = append(entries, e.Name)
+		}
 	}
 	var dir string
 	for f, d := range u.Files {
@@ -553,6 +667,27 @@ func (r *runner) nativeRun(u *UnitCfg, pkgName string, tape string) (string, err
 	}
 	for dst, src := range r.mutOverlay {
 		rep[dst] = src
+	}
+	for i, rc := range u.Rename {
+		path := rc.File
+		if !filepath.IsAbs(path) {
+			path = filepath.Join(r.repo, path)
+		}
+		srcPath := path
+		if m, ok := rep[path]; ok {
+			srcPath = m
+		}
+		src, err := os.ReadFile(srcPath)
+		if err != nil {
+			return "", err
+		}
+		out, err := renameFuncs(path, src, rc.Funcs)
+		if err != nil {
+			return "", err
+		}
+		sp := filepath.Join(r.scratch, fmt.Sprintf("renamed_%d_%s", i, filepath.Base(path)))
+		os.WriteFile(sp, out, 0o644)
+		rep[path] = sp
 	}
 	pkgDir := strings.TrimPrefix(u.Package, "./")
 	_ = dir
